@@ -6,6 +6,7 @@ import CookModel.Lemmas.ExtLawsAnalysisFull
 import CookModel.Lemmas.ExtLawsEvents
 import CookModel.Lemmas.ExtLawsLocal
 import CookModel.Lemmas.ExtLawsSingle
+import CookModel.Lemmas.ExtLawsValue
 import CookModel.Lemmas.LexLaws
 /-
   C02  Core-syntax recipes parse identically under every extension subset.
@@ -520,6 +521,37 @@ theorem C02_advanced_off (q : List Tok) (s : BP α) (h : s.ext.has Gen.EXT_ADVAN
        let r := parseRegularQuantity ({ s' with toks := q, cur := 0 } : BP α)
        (r.1, { r.2 with toks := s'.toks, cur := s'.cur })) :=
   parseQuantity_advanced_off q s h
+
+/-- RANGE_VALUES and ADVANCED_UNITS, the converse clause for ALL values (not only `2-3` and `1 kg`):
+    a value whose tokens (adjacent, as the lexer delivers them: `RunAt`) contain a token that is
+    neither a blank nor one of the number tokens `int . /` (`foreignTok`: a `-`, a word, …) is not
+    numeric, so with RANGE_VALUES off `parse_value` returns the TEXT value with exactly the text of
+    the tokens (outer blanks trimmed), pushes nothing and leaves the state alone.  With
+    ADVANCED_UNITS off `parse_quantity` is the regular parser (`C02_advanced_off`), which hands all
+    tokens up to a `%` to `parse_value`: `{1 kg}` is the text value `1 kg` without unit, `{2-3}` the
+    text value `2-3`.  (The non-blank hypothesis holds as soon as the token has a non-whitespace
+    character.) -/
+theorem C02_disabled_value_is_text {off : Nat} (tokens : List Tok) (s : BP α) (hr : RunAt off tokens)
+    (hoff : s.ext.has Gen.EXT_RANGE_VALUES = false) (t : Tok) (ht : t ∈ tokens) (hk : foreignTok t.kind = true)
+    (hne : (buildText (valStart tokens s) tokens).isTextEmpty s.cs = false) :
+    parseValue tokens s =
+      (⟨.text ((buildText (valStart tokens s) tokens).trimmed s.cs), ⟨valStart tokens s, offAt s.toks s.cur⟩⟩, s) :=
+  parseValue_foreign_text tokens s hr hoff t ht hk hne
+
+/-- … because such a value is never a number, whatever else it contains -/
+theorem C02_foreign_token_not_numeric (tokens : List Tok) (t : Tok) (ht : t ∈ tokens) (hk : foreignTok t.kind = true) :
+    numericValue (α := α) tokens = none :=
+  numericValue_none_of_foreign tokens t ht hk
+
+/-- `-` and a word are such tokens; the hypotheses hold for `2-3` and for `1 kg` -/
+example : foreignTok .minus = true ∧ foreignTok .word = true ∧ foreignTok .int = false ∧ foreignTok .ws = false := by
+  decide
+example : let ts := C02.toks [(.int, ['2']), (.minus, ['-']), (.int, ['3'])]
+    let s : BP Rat := ⟨ts, 0, ⟨0⟩, toyCharSpec, #[], none⟩
+    (buildText (valStart ts s) ts).isTextEmpty s.cs = false ∧ (∃ t ∈ ts, foreignTok t.kind = true) := by decide
+example : let ts := C02.toks [(.int, ['1']), (.ws, [' ']), (.word, ['k','g'])]
+    let s : BP Rat := ⟨ts, 0, ⟨0⟩, toyCharSpec, #[], none⟩
+    (buildText (valStart ts s) ts).isTextEmpty s.cs = false ∧ (∃ t ∈ ts, foreignTok t.kind = true) := by decide
 
 /-- with MODES off the analysis treats a `>>` entry with a bracketed key as a plain entry
     (`metadataPlain`: recorded in the map, checked as a standard key) -/
